@@ -221,6 +221,47 @@ def run_monitor(trace_spec, trace, wd, timeout=1800, xmx="3g"):
 CHUNK = 12000      # histories per harness + monitor run
 
 
+def conformance(name, trace_spec, constants, timeout=1800):
+    """Run a trace-validation monitor (spec/<trace_spec>.tla, SPECIFICATION ConfSpec, POSTCONDITION ConfPost printing CONFORMANCE) with the
+    given constants over every trace file that replay_and_judge(name, ..., keep_traces=True) left behind; returns the summed result."""
+    import glob
+    wd = os.path.join(WORK, name)
+    traces = sorted(glob.glob(os.path.join(wd, "s*", "trace.ndjson")))
+    if not traces:
+        raise ToolError("no traces kept for %s" % name)
+    cfgp = os.path.join(wd, trace_spec + ".cfg")
+    with open(cfgp, "w") as f:
+        f.write(cfg_text(constants, spec="ConfSpec", extra=["POSTCONDITION ConfPost"]))
+
+    def one(tr):
+        d = os.path.dirname(tr)
+        out = os.path.join(d, "conf.out")
+        env = dict(os.environ, TRACE=tr, JAVA_TOOL_OPTIONS="-Xss1g -Dtlc2.tool.queue.IStateQueue=StateDeque")
+        cmd = ["java", "-XX:+UseParallelGC", "-Xmx3g", "-DTLA-Library=" + SPEC, "-cp", JARS, "tlc2.TLC", "-workers", "1", "-metadir", os.path.join(d, "cmeta"),
+               "-noGenerateSpecTE", "-config", cfgp, os.path.join(SPEC, trace_spec + ".tla")]
+        with open(out, "w") as f:
+            try:
+                subprocess.run(cmd, stdout=f, stderr=subprocess.STDOUT, timeout=timeout, env=env, cwd=d, preexec_fn=_die_with_parent)
+            except subprocess.TimeoutExpired:
+                raise ToolError("conformance monitor %s timed out" % trace_spec)
+        shutil.rmtree(os.path.join(d, "cmeta"), ignore_errors=True)
+        vs = list(extract(out, "CONFORMANCE"))
+        if not vs:
+            raise ToolError("conformance monitor %s produced nothing; see %s\n%s" % (trace_spec, out, tail_errors(open(out, errors="replace").read())))
+        return json.loads(vs[-1])
+
+    t0 = time.time()
+    tot = {"recs": 0, "hists": 0, "conform": 0, "skipped": 0, "first": []}
+    with cf.ThreadPoolExecutor(max_workers=min(len(traces), 12)) as ex:
+        for v in ex.map(one, traces):
+            for k in ("recs", "hists", "conform", "skipped"):
+                tot[k] += v.get(k, 0)
+            tot["first"] = (tot["first"] + list(v.get("first") or []))[:5]
+    log("conformance %s (%s): %d of %d histories (%d records) are behaviours of the implementation-shaped model, %.1fs"
+        % (name, trace_spec, tot["conform"], tot["hists"] - tot["skipped"], tot["recs"], time.time() - t0))
+    return tot
+
+
 def shard(items, n):
     n = max(1, min(n, len(items)))
     return [items[i::n] for i in range(n)]
